@@ -243,6 +243,213 @@ Fixpoint printable_val (v : value) : bool :=
   | _ => true
   end.
 
+(* ------------------------------------------------------------------ reading the printed form back *)
+(* The printed form is a TLA+ constant expression.  `print_tokens` is the printer at token level,
+   `render` turns tokens into bytes (Proofs: print v = render (print_tokens v)); `lex` and
+   `parse_tokens` are a lexer and a recursive-descent parser for that syntax. *)
+Inductive token : Type :=
+| TLBrace | TRBrace | TLTup | TRTup | TLParen | TRParen | TComma | TMapsto | TAtAt
+| TEmptyFun | TTrue | TFalse | TDefault | TNum (z : Z) | TStr (s : list N).
+
+Fixpoint tjoin (sep : list token) (parts : list (list token)) : list token :=
+  match parts with
+  | [] => []
+  | [p] => p
+  | p :: rest => p ++ sep ++ tjoin sep rest
+  end.
+
+Fixpoint print_tokens (v : value) : list token :=
+  match v with
+  | VDefault => [TDefault]
+  | VBool true => [TTrue]
+  | VBool false => [TFalse]
+  | VNum z => [TNum z]
+  | VStr s => [TStr s]
+  | VSet xs => TLBrace :: tjoin [TComma] (map print_tokens xs) ++ [TRBrace]
+  | VTup xs => TLTup :: tjoin [TComma] (map print_tokens xs) ++ [TRTup]
+  | VFun [] => [TEmptyFun]
+  | VFun kvs =>
+      TLParen ::
+      tjoin [TAtAt] (map (fun p => match p with (k, v) =>
+                        TLParen :: print_tokens k ++ [TRParen; TMapsto; TLParen] ++ print_tokens v ++ [TRParen]
+                      end) kvs)
+      ++ [TRParen]
+  end.
+
+Definition render_token (t : token) : list N :=
+  match t with
+  | TLBrace => bytes_of_string "{" | TRBrace => bytes_of_string "}"
+  | TLTup => bytes_of_string "<<" | TRTup => bytes_of_string ">>"
+  | TLParen => bytes_of_string "(" | TRParen => bytes_of_string ")"
+  | TComma => bytes_of_string ", " | TMapsto => bytes_of_string " :> " | TAtAt => bytes_of_string " @@ "
+  | TEmptyFun => bytes_of_string "[x \in {} |-> x]"
+  | TTrue => bytes_of_string "TRUE" | TFalse => bytes_of_string "FALSE"
+  | TDefault => bytes_of_string "defaultInitValue"
+  | TNum z => print_Z z
+  | TStr s => print_str s
+  end.
+
+Definition render (ts : list token) : list N := flat_map render_token ts.
+
+(* ---- parser on tokens (fuel: one unit per value or list cell) ---- *)
+Definition is_rbrace (c : token) : bool := match c with TRBrace => true | _ => false end.
+Definition is_rtup (c : token) : bool := match c with TRTup => true | _ => false end.
+
+Section ParseLoops.
+  Context (pv : list token -> option (value * list token)).     (* the parser of one value *)
+
+  (* one or more values separated by TComma, up to the closing token *)
+  Fixpoint parse_seq (g : nat) (ts : list token) (close : token -> bool) : option (list value * list token) :=
+    match g with
+    | O => None
+    | S g' =>
+        match pv ts with
+        | Some (x, TComma :: r) =>
+            match parse_seq g' r close with Some (xs, r') => Some (x :: xs, r') | None => None end
+        | Some (x, c :: r) => if close c then Some ([x], r) else None
+        | _ => None
+        end
+    end.
+
+  (* one or more bindings  (k) :> (v)  separated by TAtAt, up to the closing parenthesis *)
+  Fixpoint parse_bindings (g : nat) (ts : list token) : option (list (value * value) * list token) :=
+    match g with
+    | O => None
+    | S g' =>
+        match ts with
+        | TLParen :: r1 =>
+            match pv r1 with
+            | Some (k, TRParen :: TMapsto :: TLParen :: r2) =>
+                match pv r2 with
+                | Some (v, TRParen :: TAtAt :: r3) =>
+                    match parse_bindings g' r3 with Some (kvs, r') => Some ((k, v) :: kvs, r') | None => None end
+                | Some (v, TRParen :: TRParen :: r3) => Some ([(k, v)], r3)
+                | _ => None
+                end
+            | _ => None
+            end
+        | _ => None
+        end
+    end.
+End ParseLoops.
+
+Fixpoint parse_val (fuel : nat) (ts : list token) : option (value * list token) :=
+  match fuel with
+  | O => None
+  | S f =>
+      match ts with
+      | TDefault :: r => Some (VDefault, r)
+      | TTrue :: r => Some (VBool true, r)
+      | TFalse :: r => Some (VBool false, r)
+      | TNum z :: r => Some (VNum z, r)
+      | TStr s :: r => Some (VStr s, r)
+      | TEmptyFun :: r => Some (VFun [], r)
+      | TLBrace :: r =>
+          match r with
+          | TRBrace :: r' => Some (VSet [], r')
+          | _ => match parse_seq (parse_val f) f r is_rbrace with
+                 | Some (xs, r') => Some (VSet xs, r') | None => None end
+          end
+      | TLTup :: r =>
+          match r with
+          | TRTup :: r' => Some (VTup [], r')
+          | _ => match parse_seq (parse_val f) f r is_rtup with
+                 | Some (xs, r') => Some (VTup xs, r') | None => None end
+          end
+      | TLParen :: r =>
+          match parse_bindings (parse_val f) f r with Some (kvs, r') => Some (VFun kvs, r') | None => None end
+      | _ => None
+      end
+  end.
+
+Definition parse_tokens (ts : list token) : option value :=
+  match parse_val (S (List.length ts)) ts with
+  | Some (v, []) => Some v
+  | _ => None
+  end.
+
+(* ---- lexer on bytes ---- *)
+Fixpoint strip_prefix (p l : list N) : option (list N) :=
+  match p, l with
+  | [], _ => Some l
+  | a :: p', b :: l' => if a =? b then strip_prefix p' l' else None
+  | _ :: _, [] => None
+  end.
+
+Definition is_digit (b : N) : bool := (48 <=? b) && (b <=? 57).
+
+Fixpoint lex_digits (l : list N) (acc : N) : N * list N :=
+  match l with
+  | b :: r => if is_digit b then lex_digits r (acc * 10 + (b - 48)) else (acc, l)
+  | [] => (acc, [])
+  end.
+
+(* the body of a quoted string: up to the closing quote; the escapes TLA+ knows *)
+Fixpoint lex_string (l : list N) (acc : list N) : option (list N * list N) :=
+  match l with
+  | [] => None
+  | 34 :: r => Some (rev acc, r)
+  | 92 :: e :: r =>
+      if (e =? 34) || (e =? 92) then lex_string r (e :: acc)
+      else if e =? 116 then lex_string r (9 :: acc)
+      else if e =? 110 then lex_string r (10 :: acc)
+      else if e =? 102 then lex_string r (12 :: acc)
+      else if e =? 114 then lex_string r (13 :: acc)
+      else None
+  | b :: r => lex_string r (b :: acc)
+  end.
+
+Definition keywords : list (list N * token) :=
+  [ (bytes_of_string "defaultInitValue", TDefault); (bytes_of_string "TRUE", TTrue);
+    (bytes_of_string "FALSE", TFalse); (bytes_of_string "[x \in {} |-> x]", TEmptyFun);
+    (bytes_of_string "<<", TLTup); (bytes_of_string ">>", TRTup);
+    (bytes_of_string "{", TLBrace); (bytes_of_string "}", TRBrace);
+    (bytes_of_string "(", TLParen); (bytes_of_string ")", TRParen);
+    (bytes_of_string ", ", TComma); (bytes_of_string " :> ", TMapsto); (bytes_of_string " @@ ", TAtAt) ].
+
+Fixpoint lex_keyword (kws : list (list N * token)) (l : list N) : option (token * list N) :=
+  match kws with
+  | [] => None
+  | (p, t) :: rest => match strip_prefix p l with Some r => Some (t, r) | None => lex_keyword rest l end
+  end.
+
+Fixpoint lex (fuel : nat) (l : list N) : option (list token) :=
+  match fuel with
+  | O => None
+  | S f =>
+      match l with
+      | [] => Some []
+      | b :: r =>
+          match lex_keyword keywords l with
+          | Some (t, r') => match lex f r' with Some ts => Some (t :: ts) | None => None end
+          | None =>
+              if b =? 34 then
+                match lex_string r [] with
+                | Some (s, r') => match lex f r' with Some ts => Some (TStr s :: ts) | None => None end
+                | None => None
+                end
+              else if is_digit b then
+                let '(n, r') := lex_digits l 0 in
+                match lex f r' with Some ts => Some (TNum (Z.of_N n) :: ts) | None => None end
+              else if b =? 45 then
+                match r with
+                | d :: _ => if is_digit d then
+                              let '(n, r') := lex_digits r 0 in
+                              match lex f r' with Some ts => Some (TNum (- Z.of_N n) :: ts) | None => None end
+                            else None
+                | [] => None
+                end
+              else None
+          end
+      end
+  end.
+
+Definition parse (l : list N) : option value :=
+  match lex (S (List.length l)) l with
+  | Some ts => parse_tokens ts
+  | None => None
+  end.
+
 (* ------------------------------------------------------------------ causal wrapper *)
 (* Values as the runtime may hold them when tracing is on: any node may sit under a
    valueCausalWrapped{Value, clock}.  The wrapper embeds Value, so Hash, Equal, String, Is*, As*
@@ -353,6 +560,166 @@ Definition WrapCausal (v : cval) (clk : list (cval * Z)) : cval :=
   | CWrap clk0 v0 => CWrap (clock_merge clk clk0) v0
   | _ => CWrap clk v
   end.
+
+(* ------------------------------------------------------------------ gob wire encoding *)
+(* builder.Set on possibly wrapped values (what GobDecode does with every decoded member) *)
+Fixpoint cset_add (l : list cval) (x : cval) : list cval :=
+  match l with
+  | [] => [x]
+  | y :: l' => if EqualC y x then x :: l' else y :: cset_add l' x
+  end.
+
+Fixpoint cfun_add (l : list (cval * cval)) (k v : cval) : list (cval * cval) :=
+  match l with
+  | [] => [(k, v)]
+  | (k', v') :: l' => if EqualC k' k then (k, v) :: l' else (k', v') :: cfun_add l' k v
+  end.
+
+(* what WrapCausal / the builders guarantee about a possibly wrapped value: no two Equal members
+   of a set, keys of a function, keys of a vector clock *)
+Fixpoint cokb (c : cval) : bool :=
+  match c with
+  | CSet xs => forallb cokb xs && pairwise_ne EqualC xs
+  | CTup xs => forallb cokb xs
+  | CFun kvs => forallb (fun p => match p with (k, v) => cokb k && cokb v end) kvs
+                && pairwise_ne EqualC (map fst kvs)
+  | CWrap clk v => forallb (fun p => match p with (k, _) => cokb k end) clk
+                   && pairwise_ne EqualC (map fst clk) && cokb v
+  | _ => true
+  end.
+
+Fixpoint cdepth (c : cval) : nat :=
+  match c with
+  | CSet xs => S (fold_right (fun x n => Nat.max (cdepth x) n) 0%nat xs)
+  | CTup xs => S (fold_right (fun x n => Nat.max (cdepth x) n) 0%nat xs)
+  | CFun kvs => S (fold_right (fun p n => match p with (k, v) => Nat.max (Nat.max (cdepth k) (cdepth v)) n end) 0%nat kvs)
+  | CWrap clk v => S (Nat.max (cdepth v) (fold_right (fun p n => match p with (k, _) => Nat.max (cdepth k) n end) 0%nat clk))
+  | _ => 1%nat
+  end.
+
+(* encoding/gob is not modelled: `bytes` is abstract, `ser` is what a fresh gob.Encoder writes for
+   a sequence of Encode calls and `de` what a fresh gob.Decoder reads back, in terms of the items
+   below (Proofs: the Section hypothesis is de (ser l) = Some l).
+   An item is one Encode call: an interface value holding one of the registered concrete types
+   (the struct types with their single exported field; the GobEncoder types with the bytes their
+   GobEncode returned), a GobEncoder value (tla.Value, tla.VClock: its bytes), a RecordField
+   struct (two GobEncoder fields), or a plain int. *)
+Section Gob.
+  Context {bytes : Type}.
+
+  Inductive gitem : Type :=
+  | GNilIface
+  | GBoolT (b : bool) | GNumT (z : Z) | GStrT (s : list N)
+  | GSetT (p : bytes) | GTupT (p : bytes) | GFunT (p : bytes) | GWrapT (p : bytes)
+  | GValue (p : bytes)
+  | GField (k v : bytes)
+  | GInt (n : Z).
+
+  Context (ser : list gitem -> bytes) (de : bytes -> option (list gitem)).
+
+  (* Value.GobEncode: a fresh encoder, one Encode(&v.data); the GobEncode methods of valueSet,
+     valueTuple, valueFunction (one Encode per member / RecordField), valueCausalWrapped
+     (Encode(&v.clock); Encode(&v.Value)) and VClock (pair count, then key and counter per pair) *)
+  Fixpoint enc_value (c : cval) : bytes :=
+    ser [match c with
+         | CDefault => GNilIface
+         | CBool b => GBoolT b
+         | CNum z => GNumT z
+         | CStr s => GStrT s
+         | CSet xs => GSetT (ser (map (fun x => GValue (enc_value x)) xs))
+         | CTup xs => GTupT (ser (map (fun x => GValue (enc_value x)) xs))
+         | CFun kvs => GFunT (ser (map (fun p => match p with (k, v) => GField (enc_value k) (enc_value v) end) kvs))
+         | CWrap clk v =>
+             GWrapT (ser [GValue (ser (GInt (Z.of_nat (List.length clk))
+                                       :: flat_map (fun p => match p with (k, n) => [GValue (enc_value k); GInt n] end) clk));
+                          GValue (enc_value v)])
+         end].
+
+  (* the loops of the GobDecode methods, given the decoder `d` of one tla.Value *)
+  Section Loops.
+    Context (d : bytes -> option cval).
+
+    (* valueSet.GobDecode: `for { decoder.Decode(&elem) ... builder.Set(elem, true) }` until EOF *)
+    Fixpoint dec_members (items : list gitem) (acc : list cval) : option (list cval) :=
+      match items with
+      | [] => Some acc
+      | GValue p :: r => match d p with Some x => dec_members r (cset_add acc x) | None => None end
+      | _ :: _ => None
+      end.
+
+    (* valueTuple.GobDecode: builder.Append(elem) *)
+    Fixpoint dec_elems (items : list gitem) (acc : list cval) : option (list cval) :=
+      match items with
+      | [] => Some acc
+      | GValue p :: r => match d p with Some x => dec_elems r (acc ++ [x]) | None => None end
+      | _ :: _ => None
+      end.
+
+    (* valueFunction.GobDecode: decoder.Decode(&field); builder.Set(field.Key, field.Value) *)
+    Fixpoint dec_fields (items : list gitem) (acc : list (cval * cval)) : option (list (cval * cval)) :=
+      match items with
+      | [] => Some acc
+      | GField pk pv :: r =>
+          match d pk, d pv with
+          | Some k, Some v => dec_fields r (cfun_add acc k v)
+          | _, _ => None
+          end
+      | _ :: _ => None
+      end.
+
+    (* VClock.GobDecode: `for i := 0; i < pairCount; i++ { Decode(&key); Decode(&value); builder.Set(key, value) }` *)
+    Fixpoint dec_pairs (n : nat) (items : list gitem) (acc : list (cval * Z)) : option (list (cval * Z)) :=
+      match n with
+      | O => Some acc
+      | S n' => match items with
+                | GValue pk :: GInt m :: r =>
+                    match d pk with Some k => dec_pairs n' r (clock_set acc k m) | None => None end
+                | _ => None
+                end
+      end.
+  End Loops.
+
+  (* Value.GobDecode: decoder.Decode(&v.data), then the GobDecode method of the concrete type;
+     `fuel` bounds the nesting depth *)
+  Fixpoint dec_value (fuel : nat) (b : bytes) : option cval :=
+    match fuel with
+    | O => None
+    | S f =>
+        match de b with
+        | Some (it :: _) =>
+            match it with
+            | GNilIface => Some CDefault
+            | GBoolT x => Some (CBool x)
+            | GNumT z => Some (CNum z)
+            | GStrT s => Some (CStr s)
+            | GSetT p => match de p with
+                         | Some items => match dec_members (dec_value f) items [] with Some xs => Some (CSet xs) | None => None end
+                         | None => None end
+            | GTupT p => match de p with
+                         | Some items => match dec_elems (dec_value f) items [] with Some xs => Some (CTup xs) | None => None end
+                         | None => None end
+            | GFunT p => match de p with
+                         | Some items => match dec_fields (dec_value f) items [] with Some kvs => Some (CFun kvs) | None => None end
+                         | None => None end
+            | GWrapT p =>
+                match de p with
+                | Some (GValue pc :: GValue pv :: _) =>
+                    match de pc with
+                    | Some (GInt n :: items) =>
+                        match dec_pairs (dec_value f) (Z.to_nat n) items [], dec_value f pv with
+                        | Some clk, Some v => Some (CWrap clk v)
+                        | _, _ => None
+                        end
+                    | _ => None
+                    end
+                | _ => None
+                end
+            | _ => None
+            end
+        | _ => None
+        end
+    end.
+End Gob.
 
 (* ------------------------------------------------------------------ hashmap.HashMap[V] *)
 Section HashMap.
@@ -486,7 +853,7 @@ Fixpoint run_hcalls (reps : list value) (h : hmap Z) (ops : list (hcall * hret))
 (* codes of the checks that fail on a case (empty = model and implementation agree) *)
 Definition check_case (vs : list obs) (eqm : list (list bool)) (ops : list (hcall * hret)) : list nat :=
   let reps := map o_rep vs in
-  (if forallb (fun o => rep_okb (strip (o_rep o))) vs then [] else [1%nat]) ++
+  (if forallb (fun o => rep_okb (strip (o_rep o)) && cokb (o_rep o)) vs then [] else [1%nat]) ++
   (if forallb (fun o => match o_in o with
                         | Some i => veqb (canon (strip (o_rep o))) (canon (build (strip i)))
                         | None => true end) vs then [] else [2%nat]) ++
@@ -502,7 +869,12 @@ Definition check_case (vs : list obs) (eqm : list (list bool)) (ops : list (hcal
                         | GobRep g => veqb (canon (strip g)) (canon (strip (o_rep o))) && rep_okb (strip g)
                                       && (HashC g =? o_gob_hash o)
                         | GobFail => false end) vs then [] else [6%nat]) ++
-  (if run_hcalls (map strip reps) hm_new ops then [] else [7%nat]).
+  (if run_hcalls (map strip reps) hm_new ops then [] else [7%nat]) ++
+  (* the printed form (equal to the implementation's String() by check 5) parses back to the value *)
+  (if forallb (fun o => negb (printable_val (strip (o_rep o)))
+                        || match parse (print (strip (o_rep o))) with
+                           | Some v' => veqb v' (strip (o_rep o))
+                           | None => false end) vs then [] else [8%nat]).
 
 Definition case := (list obs * list (list bool) * list (hcall * hret))%type.
 
